@@ -104,7 +104,8 @@ CLAIMED["C08"] = dict(
     text="Decides, for every instantiation, the per-operation facts from which the hand-out guarantees follow for every interleaving: "
          "each AtomicValue method is exactly one atomic access with the right delta and result; ThreadLock is a thin test-and-set; a "
          "pool index is returned only after its flag was won, flags are flipped only by acquire/release, the occupancy counter nets +1 "
-         "per hand-out and 0 otherwise and is only changed by read-modify-writes, released ranges are reset; queue state is touched only "
+         "per hand-out and 0 otherwise and is only changed by read-modify-writes, released ranges are reset, every slot index the pool "
+         "computes itself is reduced modulo / compared with the pool size on every path before it subscripts the pool; queue state is touched only "
          "under the queue lock which is released once on every path; a task index is handed out only after lock_dependency() succeeded "
          "on exactly that entry and it left the live range, and the position it was handed out from is overwritten whenever it is still "
          "below the fill counter; two-lock acquisition rolls back (loop forms included); overflow copies use one shared counter. "
